@@ -235,8 +235,14 @@ extern "C" void vp_main() {
   {
     bool noSignal = h.m_state == bs_noSignal;
     bool devError = tr->m_nrderr != 0;
-    bool lostNow = (preChk == 1 && g_nRd >= 1 && !won && !lateEcho && !(fault && g_nRd == 0)) || (preAm != SYN && devError);
-    if (lateEcho && !noSignal && NQ >= 1) vp_assert("late-echo-leaves-the-request-queued", g_notifyCount[0] == 0 && countIn(h.m_nextRequests, req0) == 1 && h.m_currentRequest == nullptr);
+    // the device was armed when the step read from it: armed before, or armed by this step's handleSend
+    bool armedInStep = preAm == SYN && NQ >= 1 && !cfg.readOnly && !preCont && preLock == 0 && (preState == bs_skip || preState == bs_ready);
+    bool lostNow = (preChk == 1 && g_nRd >= 1 && !won && !lateEcho && !(fault && g_nRd == 0)) || ((preAm != SYN || armedInStep) && devError);
+    // a no-signal drain can only happen when the handler was in, or went to, noSignal during the step (setState(bs_noSignal)
+    // or setState(m_state) while m_state is noSignal); it completes EVERY queued request with NO_SIGNAL and ignores the
+    // callback's restart answer
+    bool drainPossible = noSignal || preState == bs_noSignal;
+    if (lateEcho && !drainPossible && NQ >= 1) vp_assert("late-echo-leaves-the-request-queued", g_notifyCount[0] == 0 && countIn(h.m_nextRequests, req0) == 1 && h.m_currentRequest == nullptr);
     for (int k = 0; k < 2; k++) {
       RecRequest* q = k == 0 ? req0 : req1;
       bool present = k == 0 ? NQ >= 1 : NQ >= 2;
@@ -245,25 +251,27 @@ extern "C" void vp_main() {
         bool cur = h.m_currentRequest == q;
         uint8_t cnt = g_notifyCount[k];
         bool del = k == 0 ? del0 : del1;
+        bool drainedNow = cnt >= 1 && g_notifyResult[k] == RESULT_ERR_NO_SIGNAL;   // the last completion was the drain
         vp_assert("request-is-in-exactly-one-place", (cur ? 1u : 0u) + inNext + inFin + g_deleted[k] == 1);
         if (cur) vp_assert("current-request-not-completed-yet", cnt == 0);
         if (inFin == 1) vp_assert("finished-queue-only-after-completion-of-a-waited-request", cnt >= 1 && !del);
         if (g_deleted[k] == 1) vp_assert("deleted-only-after-completion-of-a-self-deleting-request", cnt >= 1 && del);
-        bool drained = g_restart[k] && noSignal && cnt == 2 && g_notifyResult[k] == RESULT_ERR_NO_SIGNAL;
-        vp_assert("completed-at-most-once", cnt <= 1 || drained);
-        bool drainedOnly = noSignal && cnt == 1 && g_notifyResult[k] == RESULT_ERR_NO_SIGNAL;   // the drain ignores the callback's answer by design
-        if (cnt >= 1 && g_restart[k] && !drainedOnly) vp_assert("restart-requeues-the-request", (cnt == 1 && inNext == 1) || drained);
+        if (drainedNow) vp_assert("no-signal-drain-only-in-or-into-nosignal", drainPossible);
+        // exactly once: a second completion only as the drain of the new life of a request that asked for a restart
+        vp_assert("completed-at-most-once", cnt <= 1 || (cnt == 2 && g_restart[k] && drainedNow && k == 0));
+        if (cnt >= 1 && g_restart[k] && !drainedNow) vp_assert("restart-requeues-the-request", cnt == 1 && inNext == 1);
         if (cnt >= 1 && !(cnt == 1 && g_restart[k] && inNext == 1)) {
           if (del) vp_assert("self-deleting-request-deleted-once-and-nowhere-queued", g_deleted[k] == 1 && inNext == 0 && inFin == 0);
           else vp_assert("waited-request-handed-to-the-finished-queue-once", g_deleted[k] == 0 && inNext == 0 && inFin == 1);
         }
-        if (noSignal) vp_assert("no-signal-completes-every-request", cnt >= 1 && inNext == 0 && !cur);
-        // in a passive step a request is completed only by a lost/cancelled arbitration (head request) or the loss of the signal
-        if (cnt >= 1 && !noSignal) vp_assert("completed-only-by-lost-arbitration", k == 0 && lostNow && g_notifyResult[0] == RESULT_ERR_BUS_LOST);
-        if (k == 1 && !noSignal) vp_assert("second-request-untouched", cnt == 0 && inNext == 1);
+        // a timeout or device error that leaves the handler in noSignal drains the queue
+        if (noSignal && fault) vp_assert("no-signal-completes-every-request", cnt >= 1 && inNext == 0 && !cur);
+        // otherwise a waiting request is completed only by a lost/cancelled arbitration, and only the head request
+        if (cnt >= 1 && !drainedNow) vp_assert("completed-only-by-lost-arbitration", k == 0 && cnt == 1 && lostNow && g_notifyResult[0] == RESULT_ERR_BUS_LOST);
+        if (k == 1 && !drainedNow) vp_assert("second-request-untouched", cnt == 0 && inNext == 1);
       }
     }
-    if (NQ >= 1 && lostNow && !noSignal) {
+    if (NQ >= 1 && lostNow && !(g_notifyCount[0] >= 1 && g_notifyResult[0] == RESULT_ERR_NO_SIGNAL)) {
       bool retry = retries0 < cfg.busLostRetries;
       if (retry) vp_assert("bus-lost-retry-requeues-without-notification", g_notifyCount[0] == 0 && countIn(h.m_nextRequests, req0) == 1 && req0->m_busLostRetries == retries0 + 1);
       else vp_assert("lost-arbitration-completes-the-request", g_notifyCount[0] == 1);
